@@ -12,6 +12,7 @@ fn gen(r: &mut Rng, tier: Tier, out: &mut Out) {
 	for i in 0..rounds {
 		let n = r.range(2, 4);
 		let mut cfg = MapCfg::basic(n);
+		cfg.top_doc_pct = 30;
 		cfg.nest_depth = r.range(0, 4);
 		cfg.max_classes = r.range(1, 7);
 		cfg.max_members = 1;
